@@ -40,7 +40,8 @@ MIN_NONTRIVIAL = {'quick': 1500, 'thorough': 12000}
 REQUIRED = ('decisions_checked', 'terminal_states_checked',
             'allin_runout_hands', 'multi_runout_hands',
             'phase_transitions_checked', 'constructor_cascades',
-            'trees_completed', 'explored_nodes')
+            'trees_completed', 'explored_nodes',
+            'forks')
 
 CUSTOMS = ('kuhn', 'draw5', 'stud5', 'greek', 'courchevel', 'holdem8',
            'plo8', 'badugi1', 'razzdraw', 'random')
@@ -220,6 +221,8 @@ def cfg_filter(cfg, rng):
 
 
 def pol_tweak(pol, cfg, rng):
+    if rng.random() < 0.4:
+        pol['fork_p'] = 0.03     # continue on a deepcopy mid-hand
     if rng.random() < 0.25:
         pol['policy'] = 'allin'
     if rng.random() < (0.2 if pol['policy'] == 'allin' else 0.03):
